@@ -697,6 +697,18 @@ def x_strcasecmp(eng, st, a):
     return _cmp_cells(eng, st, xs, ys) & 0xffffffff
 
 
+@ext('strncasecmp')
+def x_strncasecmp(eng, st, a):
+    from irsym import _cmp_cells
+    n = _len(eng, st, a[2], 'strncasecmp length')
+    xs = [_lower(eng, st, c) for c in (eng.read_cstr(st, a[0]) + [0])[:n]]
+    ys = [_lower(eng, st, c) for c in (eng.read_cstr(st, a[1]) + [0])[:n]]
+    xs = [c if isinstance(c, int) else (c, 0) for c in xs]; ys = [c if isinstance(c, int) else (c, 0) for c in ys]
+    if not xs and not ys:
+        return 0
+    return _cmp_cells(eng, st, xs, ys) & 0xffffffff
+
+
 @ext('_ZNSt6chrono3_V212system_clock3nowEv')
 def x_clock_now(eng, st, a):
     t = st.ext.get('clock', 1700000000 * 10**9)
